@@ -38,14 +38,7 @@ fn panic_symptom(msg: &str, file: &str) -> String {
 }
 
 fn err_symptom(e: &io::Error) -> String {
-    let mut s = format!("err:{:?}", e.kind());
-    let m = e.to_string();
-    // keep short, class-level messages (e.g. "failed to fill whole buffer"); drop numbers
-    if !m.is_empty() && m.len() < 60 {
-        s.push(':');
-        s.push_str(&vmc::normalise_msg(&m));
-    }
-    s
+    format!("err:{:?}", e.kind())
 }
 
 enum Call<T> {
@@ -82,19 +75,27 @@ fn verdict(
     mut seen: Seen,
 ) -> Result<Seen, Fail> {
     let rc = reference.as_ref().map(|r| ref_class(r, x)).unwrap_or_else(|| "na".into());
+    // coarse form for the fingerprint: what the reference makes of a stream noodles itself cannot
+    // decode depends on the garbage, only ok / fail is class level
+    let coarse = |rc: &str| -> String {
+        match rc {
+            "ok" | "na" => rc.to_string(),
+            _ => "fail".to_string(),
+        }
+    };
     let stream = format!("stream {}", vmc::hex(enc));
     match dec {
         Call::Bad(symptom, observed) => Err(Fail {
             stage: "decode",
             symptom,
-            reference: rc,
+            reference: coarse(&rc),
             expected: "decode(encode(x)) == x".into(),
             observed: format!("{observed}; {stream}; reference decoder: {rc}"),
         }),
         Call::Ok(d) if d != x => Err(Fail {
             stage: "compare",
             symptom: "wrong-bytes".into(),
-            reference: rc.clone(),
+            reference: coarse(&rc),
             expected: "decode(encode(x)) == x".into(),
             observed: format!("{}; {stream}; reference decoder: {rc}", wrong(x, &d)),
         }),
@@ -107,14 +108,14 @@ fn verdict(
             Some(Ok(d)) => Err(Fail {
                 stage: "refdecode",
                 symptom: "wrong-bytes".into(),
-                reference: rc,
+                reference: coarse(&rc),
                 expected: "the specification's decoder recovers x from noodles' stream".into(),
                 observed: format!("noodles decodes its stream, the reference decoder: {}; {stream}", wrong(x, &d)),
             }),
             Some(Err(e)) => Err(Fail {
                 stage: "refdecode",
                 symptom: format!("ref-err:{e}"),
-                reference: rc,
+                reference: coarse(&rc),
                 expected: "the specification's decoder recovers x from noodles' stream".into(),
                 observed: format!("noodles decodes its stream, the reference decoder fails: {e}; {stream}"),
             }),
